@@ -43,6 +43,13 @@ def drive(sc):
                      "boundary_types": [int(BT[v["type"]]) for v in vs]},
         "samplers": [{"method": "rvdesign/design", "shared": True}],
     }
+    from ropt.config.enopt import GradientConfig
+    # the user's GradientConfig OBJECT is first used for another configuration (other bounds), then for this one
+    gobj = GradientConfig(**cfg["gradient"])
+    decoy = {"variables": {"initial_values": [0.0] * 3, "lower_bounds": [-7.0] * 3, "upper_bounds": [9.0] * 3}, "gradient": gobj,
+             "samplers": cfg["samplers"]}
+    EnOptConfig.model_validate(decoy)
+    cfg["gradient"] = gobj
     config = EnOptConfig.model_validate(cfg)
     DesignPlugin.design = [samples]
     rows = []
